@@ -1,5 +1,5 @@
 (* Properties_C02.v — C02: stream fidelity.  Theorems only. *)
-From Verif Require Import Lib WorldSpec LibSpec LibSpec2 ProofsMisc.
+From Verif Require Import Lib WorldSpec LibSpec LibSpec2 ProofsMisc StreamKeep.
 From Coq Require Import Lia.
 Local Open Scope Z_scope.
 
@@ -59,3 +59,19 @@ Print Assumptions C02_write_epipe_sticky.
 
 Example C02_ex : take_runs 5 [RPos 7 0 3; RPos 7 3 10] = ([RPos 7 0 3; RPos 7 3 2], [RPos 7 5 8]).
 Proof. vm_compute. reflexivity. Qed.
+
+(* COLLECTING THE STATUS DOES NOT TOUCH THE STREAMS: a wait, and a whole stop sequence (every wait,
+   terminate and kill in it), leave the handle's stream ends exactly as they were -- whatever they
+   return, in every world.  With C01_wait_footprint (the only descriptor a wait closes is the exit
+   pipe) this is why output written before the child exited is still delivered after the status
+   has been collected. *)
+Theorem C02_wait_keeps_streams : forall p t,
+  post (reproc_wait p t) (fun res => same_streams p (snd res)).
+Proof. exact wait_keeps_streams. Qed.
+Print Assumptions C02_wait_keeps_streams.
+Theorem C02_stop_keeps_streams : forall p a,
+  post (reproc_stop p a) (fun res => same_streams p (snd res)).
+Proof. exact stop_keeps_streams. Qed.
+Print Assumptions C02_stop_keeps_streams.
+Example C02_keeps_ex : same_streams (rp_with_pipes 4 5 6 7 (rp_new 1)) (rp_with_status 3 (rp_with_exit (-1) (rp_with_pipes 4 5 6 7 (rp_new 1)))).
+Proof. unfold same_streams. repeat split. Qed.
